@@ -70,6 +70,18 @@ func svnPlatform(r *mrand.Rand) *world.Platform {
 	if r.Intn(2) == 0 {
 		p.TeeTcb[1] = byte(1 + r.Intn(9))
 	}
+	// identifier bytes that happen to read as a complete DER element (they are still just the value)
+	switch r.Intn(10) {
+	case 0:
+		p.FMSPC[0], p.FMSPC[1] = 0x04, 0x04
+	case 1:
+		p.PceID = [2]byte{0x04, 0x00}
+	case 2:
+		p.PPID[0], p.PPID[1] = 0x04, 0x0e
+	case 3:
+		p.FMSPC[0], p.FMSPC[1] = 0x30, 0x04
+		p.PPID[0], p.PPID[1] = 0x30, 0x0e
+	}
 	return p
 }
 
@@ -126,6 +138,11 @@ func richHonest(r *mrand.Rand) *world.World {
 	nrev := []int{0, 0, 1, 5, 50, 127, 128, 1000}[r.Intn(8)] // also CRLs whose DER needs long-form lengths
 	w := world.Honest(r, world.HonestOpts{Shape: honestShape(r), Platform: p, Revoked: nrev})
 
+	if r.Intn(3) == 0 {
+		// serial numbers are scoped by issuer: the Root CA CRL may list the serial the leaf has under the platform CA, and the
+		// PCK CRL the serials that the platform CA and the TCB signer have under the root
+		w.MakeCRLs(append(world.Unrelated(r, nrev), w.PKI.Leaf.Cert.SerialNumber), append(world.Unrelated(r, nrev), w.PKI.Inter.Cert.SerialNumber, w.PKI.TcbSign.Cert.SerialNumber))
+	}
 	// TCB levels: matching UpToDate level at position 0..5, preceded by non-matching ones, followed by anything.
 	pos := r.Intn(6)
 	if r.Intn(8) == 0 {
